@@ -21,6 +21,14 @@ CORNER_BOXES = {
 }
 
 
+# argument forms the documentation allows and JSON-like literals do not exercise: rows that are one shared list object
+# (`[[lo, hi]] * d`, name suffix "@a") and integer bounds
+FORM_BOXES = {"sq2@a": [[-1.0, 3.0], [-1.0, 3.0]], "sq3@a": [[0.5, 2.0], [0.5, 2.0], [0.5, 2.0]], "int2": [[-1, 3], [2, 4]], "int1": [[-5, 5]]}
+
+# documented objective domains and other boxes whose end points are not dyadic (chains of splits down to cells a few ulps wide)
+DIVE_BOXES = {"nd1": [[0.1, 0.7]], "nd9": [[0.1, 0.9]], "r512": [[-5.12, 5.12]], "c100": [[0.0, 100.0]], "tenth": [[0.1, 0.3]],
+              "mix2": [[-2.0, 6.0], [0.25, 0.5]], "neg_nd": [[-0.7, -0.1], [0.1, 0.7], [-1.0 / 3.0, 2.0 / 3.0]]}
+
 DEEPEN_MAX = 9
 LEAF_MENU = 16  # at most this many leaf positions are offered (first 8 and last 8 in level order)
 
@@ -37,7 +45,7 @@ def run_script(task, script, expect=None, changed=-1, stats=None, seen=None):
     sm = seam()
     src = ChoiceSource(script, expect)
     sm.set_source(src)
-    dom = copy.deepcopy(task["domain"])
+    dom = configs.user_domain(task["domain"], task.get("alias_rows"))
     dom_before = copy.deepcopy(dom)
     pc = configs.part_class(task["part"], task.get("K"))
     rec = ExpansionRecorder()
@@ -209,7 +217,7 @@ def run_dive(task, only=None):
         sm.set_source(src)
         rec = ExpansionRecorder()
         rec.activate()
-        P = pc(domain=copy.deepcopy(task["domain"]))
+        P = pc(domain=configs.user_domain(task["domain"], task.get("alias_rows")))
         node = P.get_root()
         viol = None
         step = 0
@@ -273,6 +281,6 @@ def ops_tasks(tier, boxes, oracles, corner=False):
                 n += 1
                 k = 2 if rng else 0
             ts.append({"kind": "ops", "label": "ops/%s%s/%s" % (part, K or "", bname), "part": part, "K": K,
-                       "domain": box, "N": n, "k": k, "oracles": list(oracles),
+                       "domain": box, "N": n, "k": k, "oracles": list(oracles), "alias_rows": bname.endswith("@a"),
                        "max_exec": 150000 if tier == "quick" else 1500000})
     return ts
